@@ -4,8 +4,11 @@
    a unit of s's table.  Proved for convert_variable in ALL its cases (OUTPUT, INPUT of computed / constant / state /
    free variable: ODE rewriting, derivative substitution, conversion-factor quantities) and for any sequence of
    conversions.  The singularity helper as coded (F12) is refuted; the repaired hand-back (fix: commit in /repo) is
-   proved to restore the invariant.  Loading, API edits and the unit-fix pass are decided by the scan oracle on the
-   implementation (tools/props/c18.py). *)
+   proved to restore the invariant.  LOADING is proved over the loader model (Model/Loader.v, at the end of this file:
+   C18_loaded_numbers_have_units -- every number of a component equation carries a defined cellml:units name, every
+   inserted conversion factor is the factor between the defined units of the two ends of a document connection, every
+   initial-value number carries its variable's unit).  API edits and the unit-fix pass are decided by the scan oracle on
+   the implementation (tools/props/c18.py). *)
 From Coq Require Import List ZArith QArith Bool.
 From Verif Require Import Sexp UnitAlg Expr ModelSM ConvertVar QtyUnits C18P.
 Import ListNotations.
@@ -36,3 +39,19 @@ Print Assumptions C18_singularity_units_restored.
 Theorem C18_bigger_table_keeps_units : forall N M e, N <= M -> qty_ok N e = true -> qty_ok M e = true.
 Proof. exact qty_ok_mono. Qed.
 Print Assumptions C18_bigger_table_keeps_units.
+
+(* ---- loading (over Model/Loader.v, the model of Parser.parse; proofs: Proofs/C18LoadP.v) ------------------------
+   The import stands here, not at the top, so that the loader's names (result, bind, upd, defined, lookup ...)
+   cannot shadow anything the theorems above use.
+   Every number of every equation of a loaded model carries a defined unit (eq_numbers_ok):
+   - component equation: every quantity leaf [EQty id q u] has a cellml:units name u defined in the document's unit
+     table (user definitions and built-ins, as computed by Model/UnitsLoader.v);
+   - inserted conversion equation  t = a * cf : cf is the conversion factor between the DEFINED units of the two ends
+     of a document connection (s, t), i.e. a number in  unit of t / unit of s;
+   - initial-value equation  v = init : the number carries the defined unit of v. *)
+From Verif Require Import Loader LoaderP C17P C18LoadP.
+
+Theorem C18_loaded_numbers_have_units : forall d f, load d = OK f ->
+  forall q, In q (f_eqs f) -> eq_numbers_ok d (f_vars f) (st_work d) q.
+Proof. exact loaded_numbers_have_units. Qed.
+Print Assumptions C18_loaded_numbers_have_units.
